@@ -50,6 +50,32 @@ fn check_single(c: &Content) -> Result<Vec<u64>, String> {
                 if it.next().is_some() || it.next().is_some() || it.len() != 0 {
                     return Err("index window iterator yields items after its end".into());
                 }
+                // iterator adapters must see the same sequence: nth / skip / step_by / last / count
+                for kk in 0..=8usize {
+                    let (a1, a2, a3): (Option<u64>, Vec<u64>, Vec<u64>) = if k == 0 {
+                        (h.block_hash_1_index_windows().nth(kk), h.block_hash_1_index_windows().skip(kk).collect(), h.block_hash_1_numeric_windows().step_by(kk + 1).collect())
+                    } else {
+                        (h.block_hash_2_index_windows().nth(kk), h.block_hash_2_index_windows().skip(kk).collect(), h.block_hash_2_numeric_windows().step_by(kk + 1).collect())
+                    };
+                    let e3: Vec<u64> = nums.iter().copied().step_by(kk + 1).collect();
+                    if a1 != inds.get(kk).copied() || a2[..] != inds[kk.min(inds.len())..] || a3 != e3 {
+                        return Err(format!("window iterator adapters (nth / skip / step_by with {}) disagree with plain iteration", kk));
+                    }
+                    // nth in the middle of an iteration
+                    let mut mid = if k == 0 { h.block_hash_1_numeric_windows() } else { h.block_hash_2_numeric_windows() };
+                    mid.next();
+                    if mid.nth(kk) != nums.get(kk + 1).copied() || mid.next() != nums.get(kk + 2).copied() {
+                        return Err(format!("numeric window iterator: next(); nth({}); next() disagrees with plain iteration", kk));
+                    }
+                }
+                let (cnt, lst) = if k == 0 {
+                    (h.block_hash_1_index_windows().count(), h.block_hash_1_index_windows().last())
+                } else {
+                    (h.block_hash_2_index_windows().count(), h.block_hash_2_index_windows().last())
+                };
+                if cnt != n || lst != inds.last().copied() {
+                    return Err("window iterator count() / last() disagree with plain iteration".into());
+                }
                 if slices.len() != n || nums.len() != n || inds.len() != n || ln != n || li != n || hint != (n, Some(n)) {
                     return Err(format!("window iterator lengths: slices {} numeric {} index {} len() {} / {} expected {}", slices.len(), nums.len(), inds.len(), ln, li, n));
                 }
